@@ -353,6 +353,14 @@ def compressSigned (vs : List (BitVec 64)) : CData := compressInts (vs.map (fun 
 /-- `chunks_exact(8)` of the raw bytes -/
 def rawWords (bs : List Nat) : List Nat := (readWords (bs.length / 8) bs).getD []
 
+/-- `RunLengthEncoding::from_bytes(..)?.decode()`: `Vec::<Run>::with_capacity(run_count)` panics
+("capacity overflow") when `run_count * 16 > isize::MAX`, before any run is read -/
+def rleDecompress (data : List Nat) : Res (List Nat) :=
+  if data.length ≥ 8 ∧ ofLe (data.take 8) ≥ 2 ^ 59 then .panic
+  else match Rle.fromBytes data with
+    | some r => .ok r.decode
+    | none => .err
+
 /-- `decompress_integers` -/
 def decompressInts (c : CData) : Res (List Nat) :=
   match c.codec with
@@ -365,13 +373,7 @@ def decompressInts (c : CData) : Res (List Nat) :=
     | .ok p => p.unpack
     | .err => .err
     | .panic => .panic)
-  | .runLength =>
-    -- `Vec::<Run>::with_capacity(run_count)` panics ("capacity overflow") when
-    -- `run_count * 16 > isize::MAX`, before any run is read
-    if c.data.length ≥ 8 ∧ ofLe (c.data.take 8) ≥ 2 ^ 59 then .panic
-    else (match Rle.fromBytes c.data with
-      | some r => .ok r.decode
-      | none => .err)
+  | .runLength => rleDecompress c.data
   | _ => .err
 
 def decodeSigned (r : Res (List Nat)) : Res (List (BitVec 64)) :=
@@ -450,8 +452,17 @@ def intOf : PV → BitVec 64 | .int v => v | _ => 0
 def strOf : PV → Str | .str s => s | _ => []
 def boolOf : PV → Bool | .bool b => b | _ => false
 
+/-- stable sort by a `u64` key (`slice::sort_by_key`): insertion from the right, an element goes
+in front of the first element whose key is not smaller. (Structural recursion, so that the
+witnesses below evaluate in the kernel; any two stable sorts agree.) -/
+def insertBy {α : Type} (key : α → Nat) (a : α) : List α → List α
+  | [] => [a]
+  | y :: ys => if key a ≤ key y then a :: y :: ys else y :: insertBy key a ys
+
+def sortBy {α : Type} (key : α → Nat) (l : List α) : List α := l.foldr (insertBy key) []
+
 /-- `sort_by_key(|(id, _)| *id)` (stable; ids are unique) -/
-def sortById (l : HotMap) : HotMap := l.mergeSort (fun a b => decide (a.1 ≤ b.1))
+def sortById (l : HotMap) : HotMap := sortBy (·.1) l
 
 /-- `compress_as_integers` -/
 def PCol.compressAsInts (c : PCol) : PCol :=
@@ -493,20 +504,13 @@ def PCol.compress (c : PCol) : PCol :=
   else if (c.values.filter (fun kv => isBool kv.2)).length > c.values.length / 2 then c.compressAsBools
   else c
 
-/-- the loop `for (i, id) in index_to_id.iter().enumerate() { if let Some(v) = xs.get(i) { insert } }` -/
-def reinsert {α : Type} (mk : α → PV) (xs : List α) : HotMap → Nat → List Nat → HotMap
+/-- the loop `for (i, id) in index_to_id.iter().enumerate() { if let Some(x) = get(i) { insert(id, mk(x)) } }` -/
+def reinsertF {α : Type} (mk : α → PV) (get : Nat → Option α) : HotMap → Nat → List Nat → HotMap
   | m, _, [] => m
   | m, i, id :: ids =>
-    match xs[i]? with
-    | some x => reinsert mk xs (hmInsert m id (mk x)) (i + 1) ids
-    | none => reinsert mk xs m (i + 1) ids
-
-def reinsertOpt (xs : Nat → Option Str) : HotMap → Nat → List Nat → HotMap
-  | m, _, [] => m
-  | m, i, id :: ids =>
-    match xs i with
-    | some x => reinsertOpt xs (hmInsert m id (.str x)) (i + 1) ids
-    | none => reinsertOpt xs m (i + 1) ids
+    match get i with
+    | some x => reinsertF mk get (hmInsert m id (mk x)) (i + 1) ids
+    | none => reinsertF mk get m (i + 1) ids
 
 /-- `decompress_all`; a failing or panicking decoder is reported as such (`none` = would panic) -/
 def PCol.decompressAll (c : PCol) : Res PCol :=
@@ -514,14 +518,14 @@ def PCol.decompressAll (c : PCol) : Res PCol :=
   | none => .ok c
   | some (.ints d ids) =>
     (match decodeSigned (decompressInts d) with
-     | .ok vs => .ok { c with values := reinsert PV.int vs c.values 0 ids, compressed := none, compressedCount := 0 }
+     | .ok vs => .ok { c with values := reinsertF PV.int (fun i => vs[i]?) c.values 0 ids, compressed := none, compressedCount := 0 }
      | .err => .ok { c with compressed := none, compressedCount := 0 }
      | .panic => .panic)
   | some (.strs enc ids) =>
-    .ok { c with values := reinsertOpt enc.get c.values 0 ids, compressed := none, compressedCount := 0 }
+    .ok { c with values := reinsertF PV.str enc.get c.values 0 ids, compressed := none, compressedCount := 0 }
   | some (.bools d ids) =>
     (match decompressBools d with
-     | .ok vs => .ok { c with values := reinsert PV.bool vs c.values 0 ids, compressed := none, compressedCount := 0 }
+     | .ok vs => .ok { c with values := reinsertF PV.bool (fun i => vs[i]?) c.values 0 ids, compressed := none, compressedCount := 0 }
      | .err => .ok { c with compressed := none, compressedCount := 0 }
      | .panic => .panic)
 
@@ -630,7 +634,7 @@ def AChunk.push (c : AChunk) (e : Entry) : Option AChunk :=
   if c.entries.length ≥ c.capacity then none else some { c with entries := c.entries ++ [e] }
 
 /-- `entries.sort_by_key(|(dst, _)| dst)` (stable) -/
-def sortByDst (l : List Entry) : List Entry := l.mergeSort (fun a b => decide (a.1 ≤ b.1))
+def sortByDst (l : List Entry) : List Entry := sortBy (·.1) l
 
 /-- `AdjacencyChunk::compress` -/
 def AChunk.compress (c : AChunk) : CChunk :=
@@ -1017,6 +1021,12 @@ def setUpper (lb upperLen : Nat) : BVec → Nat → List Nat → Res BVec
       | .panic => .panic
     else setUpper lb upperLen u (i + 1) vs
 
+/-- `lower_bits`: 0 when `universe <= n`, else the bit length of `universe / n` -/
+def efLowerBits (n last : Nat) : Nat := if last + 1 ≤ n then 0 else bitLen ((last + 1) / n)
+
+/-- `lower_mask` -/
+def efMask (lb : Nat) : Nat := if lb = 0 then 0 else if lb ≥ 64 then W - 1 else 2 ^ lb - 1
+
 /-- `EliasFano::new` -/
 def EF.new (vs : List Nat) : Res EF :=
   match vs.getLast? with
@@ -1025,16 +1035,13 @@ def EF.new (vs : List Nat) : Res EF :=
     if !strictlyIncreasing vs then .panic
     else if last + 1 ≥ W then .panic                       -- `values[n-1] + 1` overflows
     else
-      let n := vs.length
-      let univ := last + 1
-      let lb := if univ ≤ n then 0 else bitLen (univ / n)
-      let mask := if lb = 0 then 0 else if lb ≥ 64 then W - 1 else 2 ^ lb - 1
-      match BVec.empty.pushAll (lowerBitsList mask lb vs) with
+      match BVec.empty.pushAll (lowerBitsList (efMask (efLowerBits vs.length last)) (efLowerBits vs.length last) vs) with
       | .ok lower =>
-        if lb ≥ 64 then .panic                              -- `values[n-1] >> lower_bits`
+        if efLowerBits vs.length last ≥ 64 then .panic      -- `values[n-1] >> lower_bits`
         else
-          (match setUpper lb (n + (last >>> lb)) (BVec.filled (n + (last >>> lb)) false) 0 vs with
-           | .ok ub => .ok ⟨n, univ, lb, lower, SBV.ofBVec ub⟩
+          (match setUpper (efLowerBits vs.length last) (vs.length + (last >>> efLowerBits vs.length last))
+              (BVec.filled (vs.length + (last >>> efLowerBits vs.length last)) false) 0 vs with
+           | .ok ub => .ok ⟨vs.length, last + 1, efLowerBits vs.length last, lower, SBV.ofBVec ub⟩
            | .err => .err
            | .panic => .panic)
       | .err => .err
@@ -1143,11 +1150,15 @@ def sortDedup : List Nat → List Nat
 /-- `symbol_to_code.get(sym)`: position in the sorted symbol list -/
 def codeOf (symbols : List Nat) (sym : Nat) : Option Nat := symbols.idxOf? sym
 
-/-- one level: the bit vector of bit `bitPos` of every code, and the stable partition -/
-def levelBits (bitPos : Nat) (codes : List Nat) : List Bool := codes.map (fun c => (c >>> bitPos) % 2 == 1)
+/-- `(code >> bit_pos) & 1 == 1` -/
+def bitOf (bitPos c : Nat) : Bool := (c >>> bitPos) % 2 == 1
 
+/-- one level: the bit vector of bit `bitPos` of every code -/
+def levelBits (bitPos : Nat) (codes : List Nat) : List Bool := codes.map (bitOf bitPos)
+
+/-- the stable partition for the next level: codes whose bit is 0 (`left`), then the others (`right`) -/
 def partitionLevel (bitPos : Nat) (codes : List Nat) : List Nat :=
-  codes.filter (fun c => (c >>> bitPos) % 2 == 0) ++ codes.filter (fun c => !((c >>> bitPos) % 2 == 0))
+  codes.filter (fun c => !bitOf bitPos c) ++ codes.filter (bitOf bitPos)
 
 /-- `build_levels` (`n` levels remaining; bit position `n - 1` first) -/
 def buildLevels : Nat → List Nat → Res (List SBV)
@@ -1210,7 +1221,7 @@ def WT.access (w : WT) (i : Nat) : Res Nat :=
 def descend (code : Nat) : List SBV → Nat → Nat → Nat → Res (Nat × Nat)
   | [], _, lo, hi => .ok (lo, hi)
   | bv :: rest, h, lo, hi =>
-    if (code >>> (h - 1)) % 2 = 0 then
+    if !bitOf (h - 1) code then
       (match bv.rank0 lo, bv.rank0 hi with
        | .ok a, .ok b => descend code rest (h - 1) a b
        | _, _ => .panic)
@@ -1233,7 +1244,7 @@ def WT.rank (w : WT) (sym i : Nat) : Res Nat :=
 def ascend (code : Nat) : List SBV → Nat → Nat → Res (Option Nat)
   | [], _, pos => .ok (some pos)
   | bv :: rest, bitPos, pos =>
-    if (code >>> bitPos) % 2 = 0 then
+    if !bitOf bitPos code then
       (match bv.select0 pos with
        | .ok (some p) => ascend code rest (bitPos + 1) p
        | .ok none => .ok none
